@@ -100,6 +100,10 @@ let parse_file (path : string) : Trace.tev list * stats =
     if s = "-" then nat_of_int 0
     else if S.length s > 1 && S.get s 0 = 't' then (match int_of_string_opt (S.sub s 1 (S.length s - 1)) with Some n -> nat_of_int (n + 1) | None -> nat_of_int (100 + other_of s))
     else nat_of_int (100 + other_of s) in
+  let tid_of (s : string) : Datatypes.nat =
+    if s = "-" || s = "" then nat_of_int 0
+    else if S.length s > 3 && S.sub s 0 3 = "tid" then (match int_of_string_opt (S.sub s 3 (S.length s - 3)) with Some n -> nat_of_int (n + 1) | None -> nat_of_int (100 + other_of s))
+    else nat_of_int (100 + other_of s) in
   (try
     while true do
       let line = input_line ic in
@@ -147,6 +151,8 @@ let parse_file (path : string) : Trace.tev list * stats =
         | ["QVARIANTS"; b; vs] -> push (Trace.TQVariants (rid_of b, L.map rid_of (split_on ',' vs)))
         | ["QVARIANTS"; b] -> push (Trace.TQVariants (rid_of b, []))
         | ["CONNEV"; c; "token"; tok; _] -> push (Trace.TConnToken (conn_of c, tok_of tok))
+        | ["TOKTASK"; c; tok; tid] -> push (Trace.TTokenTask (conn_of c, tok_of tok, tid_of tid))
+        | ["SYSEV"; "tokenreset"; tids] -> push (Trace.TTokenResetEv (L.map tid_of (L.filter (fun x -> x <> "") (S.split_on_char ',' tids))))
         | ["SYSEV"; "reset"; which; pats] ->
           let pats = L.map chars_of_string (S.split_on_char ',' (unhex pats)) in
           let known = Hashtbl.fold (fun n name acc -> (n, name) :: acc) rid_names [] in
@@ -168,7 +174,7 @@ let parse_file (path : string) : Trace.tev list * stats =
                                   && S.get txt (i+2) >= '0' && S.get txt (i+2) <= '9' then leak := true) txt;
           push (Trace.TRawOut (conn_of c, !leak))
         | "MQREQ" :: n :: typ :: r :: meth :: cid :: tok :: _ ->
-          let t = (match typ with "get" -> Trace.MGet | "access" -> Trace.MAccess | "call" -> Trace.MCall | "auth" -> Trace.MAuth | "query" -> Trace.MQuery | _ -> Trace.MOtherReq) in
+          let t = (match typ with "get" -> Trace.MGet | "access" -> Trace.MAccess | "call" -> Trace.MCall | "auth" -> Trace.MAuth | "query" -> Trace.MQuery | "tokenreset" -> Trace.MTokReset | _ -> Trace.MOtherReq) in
           if typ = "query" then Hashtbl.replace qreq (int_of_string n) r;
           let c = if S.length cid > 1 && (S.get cid 0 = 'c' || S.get cid 0 = 'h') then Some (conn_of cid) else None in
           Hashtbl.replace reqtab (int_of_string n) (rid_of r);
@@ -269,6 +275,7 @@ let akind_name (k : AccessMon.akind) : string * string = match k with
   | AccessMon.AStaleToken -> ("C05", "request-with-stale-token")
   | AccessMon.AWrongCid -> ("C10", "request-with-other-connection-id")
   | AccessMon.ACidLeak -> ("C10", "connection-id-in-client-frame")
+  | AccessMon.AWrongTokenReset -> ("C10", "token-reset-for-unaddressed-connection")
   | AccessMon.ANoReaccess -> ("C06", "trigger-without-reaccess")
   | AccessMon.ANoRevocation -> ("C06", "denial-without-unsubscribe-event")
   | AccessMon.ADeliveredDuringRecheck -> ("C06", "event-delivered-during-recheck")
